@@ -3,7 +3,8 @@
 // Complete enumeration over a small JSON value domain of
 //   - every ordered warm-up pair (the first comparison a FRESH comparer instance performs) followed by
 //     every ordered pair of keys (history independence, oracle 1),
-//   - total-preorder axioms on every distinct sign matrix obtained that way and on live triples (oracle 2),
+//   - total-preorder axioms on every distinct sign matrix obtained that way (each comparison by its own
+//     instance) and on pairs / triples compared by ONE live instance (oracle 2),
 //   - real map-key stores written by one fresh instance ("process A") and read by other fresh instances
 //     ("process B") for every insertion / lookup order of every small key set (oracle 3),
 //
@@ -486,8 +487,10 @@ func jobWarm2(run *ev.Run, c *collector, m mode, vals []jval, chunk, nchunks int
 }
 
 // jobTriples: ONE live comparer instance per case.
-//   pairs:   compare(x,y), compare(y,x), compare(x,x), compare(y,y) for every ordered pair (reflexive, antisymmetric);
-//   triples: compare(x,y), compare(y,z), compare(x,z) for every ordered triple (transitive).
+//
+//	pairs:   compare(x,y), compare(y,x), compare(x,x), compare(y,y) for every ordered pair (reflexive, antisymmetric);
+//	triples: compare(x,y), compare(y,z), compare(x,z) for every ordered triple (transitive).
+//
 // withWarm: additionally after every warm-up pair (1-field modes).
 func jobTriples(run *ev.Run, c *collector, m mode, thorough, withWarm bool, chunk, nchunks int) {
 	d := matrixDomain(m, thorough)
@@ -1006,10 +1009,11 @@ func main() {
 	run.Set("value_domain", vl)
 	run.Set("rule", "per mode: keys = every assignment of the value domain ('-' = field missing) to 1 field (11 keys) or 2 fields (thorough 121 keys; quick 64 keys over "+fmt.Sprint(matrixVals2Quick)+"); "+
 		"matrix jobs: for EVERY ordered warm-up pair (w1,w2) and EVERY ordered pair (x,y): fresh comparer, compare(w1,w2), then sign compare(x,y), compared with the no-warm-up sign (history independence); "+
-		"total-preorder axioms on every distinct resulting sign matrix over all pairs/triples; warm2: every two-comparison warm-up sequence (1-field modes; thorough also 2-field modes over "+fmt.Sprint(warm2Vals2Thorough)+"); triples: compare(x,y),compare(y,z),compare(x,z) on one live instance for every ordered triple (1-field modes: after every warm-up too); "+
+		"total-preorder axioms on every distinct resulting sign matrix over all pairs/triples; warm2: every two-comparison warm-up sequence (1-field modes; thorough also 2-field modes over "+fmt.Sprint(warm2Vals2Thorough)+"); one-instance jobs: on ONE live instance compare(x,y),compare(y,x),compare(x,x),compare(y,y) for every ordered pair after no / every warm-up, and compare(x,y),compare(y,z),compare(x,z) for every ordered triple (1-field modes: after every warm-up too); "+
 		"bridge: sign of the first comparison of a fresh OpenJsonBtreeMapKey instance observed through Find/Add/First on a one-item store for every pair; "+
 		"tree: every k-subset of keys (k=3; thorough 4 for 1-field modes; 2-field modes use the reduced values "+fmt.Sprint(treeVals2Quick)+" / thorough "+fmt.Sprint(treeVals2Thorough)+") x every insertion order on a real store (slot length 2) x every lookup order by another fresh instance. "+
-		"non-trivial = case whose compared keys differ (x != y) / one store built")
+		"non-trivial = case whose compared keys differ (x != y) / one store built. "+
+		"Violation classes (Sig): <oracle>|<mode>|[separate-instances|one-instance|]<JSON types, e.g. bool~number, of the one field whose type differs between the two keys that seed the comparers involved: the two histories' first keys for history-dependence, x and y for the axioms>; two-process-* per mode")
 	run.Assumption("JSON numbers are float64 (as encoding/json decodes keys read back from a store); Go-only types (int, time.Time, ...) are outside the JSON key domain of the statement")
 	run.Assumption("default field-wise order: the comparer the real store uses is obtained from a jsondb.NewJsonBtreeMapKey store by reflection (no exported accessor) and brought back to the state of a new instance by zeroing the instance's fields (a new instance has them all zero); the bridge pass validates this against fresh OpenJsonBtreeMapKey instances using exported API only")
 	run.Assumption("'two processes' are two JsonDBMapKey instances in separate transactions of one OS process (the comparer state lives in the instance); CEL-expression ordering is not part of this property")
